@@ -12,6 +12,12 @@ import (
 var plainFields = []string{"a", "b", "name", "John", "US", "19", "x y", "é", "世界", "0", "-1.5", "true", "a'b", "a;b", "a|b", "a\tb", "#nocomment", "end."}
 var hardFields = []string{"", "", "a,b", "say \"hi\"", "\"", "line1\nline2", "line1\r\nline2", " lead", "trail ", "  ", ",", "\n", "#", "a,\"b\"\nc", "\r", "x\ry"}
 
+// longField is one field of 4200..9000 bytes: longer than the 4096-byte buffers of csv.Reader, csv.Writer and bufio.
+func longField(r *rand.Rand) string {
+	unit := []string{"long field ", "0123456789", "x\"q\" y, z; ", "line\nbreak inside "}[r.Intn(4)]
+	return strings.Repeat(unit, (4200+r.Intn(4800))/len(unit)+1)
+}
+
 func genField(r *rand.Rand) string {
 	if r.Intn(3) == 0 {
 		return hardFields[r.Intn(len(hardFields))]
@@ -64,6 +70,11 @@ func genText(r *rand.Rand, sep string) textSpec {
 		n = 120 + r.Intn(200)
 	}
 	width := 1 + r.Intn(4)
+	// one text in 50: a single field (hence a single record, and for most units a single line) above 4096 bytes
+	longAt := -1
+	if n > 0 && n < 20 && r.Intn(50) == 0 {
+		longAt = r.Intn(n)
+	}
 	ragged := r.Intn(8) == 0
 	broken := r.Intn(9) == 0
 	brokenAt := -1
@@ -92,6 +103,10 @@ func genText(r *rand.Rand, sep string) textSpec {
 					sb.WriteString(" ")
 				}
 			}
+			if i == longAt && j == 0 {
+				sb.WriteString(render(r, longField(r), sep, false))
+				continue
+			}
 			sb.WriteString(render(r, genField(r), sep, i == brokenAt && j == w-1))
 		}
 		if i < n-1 || r.Intn(4) != 0 {
@@ -117,6 +132,9 @@ var fixedTexts = []string{
 	"one\n",
 	"a,b",
 	"\"a\"\"b\",\"c,d\"\r\ne,f\r\n",
+	"h1,h2\n" + strings.Repeat("a field longer than any buffer ", 160) + ",b\nc,d\n",
+	"h1,h2\n\"" + strings.Repeat("quoted, with \"\"quotes\"\" and\nline breaks; ", 120) + "\",b\nc,d\n",
+	"name;country;age\n\"mike;jr\";US;20\n# note\nJohn;US;19\n",
 }
 
 func genOpts(r *rand.Rand, nrecs int) (Opts, string) {
@@ -296,6 +314,15 @@ func genGroup(r *rand.Rand, idx int) []*Case {
 			}
 		} else if kind == "*csv.Writer" {
 			c.PreNil = r.Intn(8) == 0
+			// the caller's own separator on its writer object, no writer separator among the codec options
+			if !c.PreNil {
+				switch {
+				case o.WComma != "" && r.Intn(2) == 0:
+					c.Obj, c.Opts.WComma = &ObjOpts{Comma: o.WComma}, ""
+				case o.WComma == "" && r.Intn(4) == 0:
+					c.Obj = &ObjOpts{Comma: []string{";", "\t", "|"}[r.Intn(3)]}
+				}
+			}
 		} else if strings.HasPrefix(kind, "*") {
 			switch r.Intn(8) {
 			case 0, 1:
@@ -350,6 +377,20 @@ func genGroup(r *rand.Rand, idx int) []*Case {
 		c := &Case{Dir: "produce", Kind: kind, Text: mon.Q(text), Opts: o, S: genWriteScript(r, len(text)+8, 6)}
 		if r.Intn(5) == 0 {
 			c.Warm = 1 + r.Intn(2)
+		}
+		if kind == "*csv.Reader" && (o.Comma != "" || o.Comment != "" || o.FPR != 0) && (r.Intn(2) == 0 || idx < len(fixedTexts)) {
+			// the caller's own settings on its reader object; the codec options of the same names stay unset
+			// (the reference parse is the group's: the same settings, wherever they were made)
+			c.Obj = &ObjOpts{}
+			if o.Comma != "" && r.Intn(4) != 0 {
+				c.Obj.Comma, c.Opts.Comma = o.Comma, ""
+			}
+			if o.Comment != "" && r.Intn(4) != 0 {
+				c.Obj.Comment, c.Opts.Comment = o.Comment, ""
+			}
+			if o.FPR != 0 && r.Intn(4) != 0 {
+				c.Obj.FPR, c.Opts.FPR = o.FPR, 0
+			}
 		}
 		switch kind {
 		case "*csv.Reader", "reader", "readcloser", "writerto":
